@@ -447,18 +447,18 @@ PROPS["C14"] = {
             "results (Url::parse().to_string(), Mime::to_string(), URL after serde_qs + Url::set_query) are computed by `gen` from "
             "those crates directly and are part of the case. non-trivial = at least one builder call and a request was built; "
             "distinct = distinct (api, method, sequence of call kinds, outcome class)",
-    "level_text": "Proof (12 theorems over M.Http.buildRequest; every method token, URL and every LIST of builder calls, arbitrary byte "
+    "level_text": "Proof (10 theorems over M.Http.buildRequest; every method token, URL and every LIST of builder calls, arbitrary byte "
                   "strings, induction over the call list): buildRequest_closed (closed form: one effect, method = upper-cased token, URL "
-                  "= result of the last query() else the parsed URL, body = modelBody, every header name carries exactly "
+                  "= result of the last query() else the parsed URL, body = bytes of the last body call, every header name carries exactly "
                   "modelValues), one_effect, method_url_body_exact, headers_exact (last header()/content_type() call on a "
                   "case-insensitively equal name wins with ALL its values in order; content-type from the body otherwise), nothing_added, "
-                  "modelValues_eq_expected, modelBody_eq_expected, C14_sound_partial (okReq accepts the model's observation whenever the "
-                  "content type is not stale and no unknown-length body is dropped), stale_content_type_exact and "
-                  "unknown_length_body_dropped_exact (in each defect region the model yields exactly the keyed defect). The FULL "
-                  "statement C14_full is refuted twice: C14_full_false (key stale-content-type: post(u).body_string(\"a\").body_json(&{}) "
-                  "sends `{}` as text/plain;charset=utf-8) and C14_full_false_dropped (key unknown-length-body-dropped: "
-                  "body(Body::from_reader(cursor, None)) reaches the shell with an empty body). The model is one function for both APIs; that both real APIs behave as it is what the "
-                  "correspondence check establishes on every run.",
+                  "modelValues_eq_expected, C14_sound_partial (okReq accepts the model's observation whenever the content type is not "
+                  "stale), stale_content_type_exact (in the defect region the model yields exactly the keyed defect), "
+                  "unknown_length_body_sent (region of the defect repaired by /repo fb3ba05). The FULL statement C14_full is refuted "
+                  "(C14_full_false; key stale-content-type: post(u).body_string(\"a\").body_json(&{}) sends `{}` as "
+                  "text/plain;charset=utf-8). The model is one function for both APIs; that both real APIs behave as it is what the "
+                  "correspondence check establishes on every run; the observation includes the order of the emitted headers (sorted by "
+                  "name since /repo cda2127).",
     "level_note": "Trusted: Lean kernel + 3 standard axioms; hand model M.Http (checked against the real crux_http through a real Core on "
                   "6k (quick) / 300k (thorough) generated requests per run + 55 corpus cases); http-types Headers modelled as an "
                   "association list (insert replaces, entry order unobservable — the harness sorts by name), Body MIME table, "
@@ -666,7 +666,8 @@ def sexp_shrinks(case, limit=400):
 
 def rt_gen(profiles, quick_n, thorough_n):
     def gen(tier, seed):
-        n = quick_n if tier == "quick" else thorough_n
+        # "search" = the budget used to look for a failing input after a correspondence break in the quick tier
+        n = quick_n if tier == "quick" else 4 * quick_n if tier == "search" else thorough_n
         return [["gen", seed + i, max(1, n // len(profiles)), p] for i, p in enumerate(profiles)]
     return gen
 
